@@ -127,7 +127,7 @@ func (kd *kind) checkReadback(keys []kv, vals []int, m *model) (class, what stri
 }
 
 func (s *combSpace) replay(h hist) (*exec.VerifC09Combiner, *model, error) {
-	c, err := exec.VerifC09NewCombiner(s.kd.typ, "c09", addFunc, s.target)
+	c, err := exec.VerifC09NewCombiner(s.kd.typ, "c09", s.kd.comb, s.target)
 	if err != nil {
 		return nil, nil, err
 	}
@@ -139,7 +139,7 @@ func (s *combSpace) replay(h hist) (*exec.VerifC09Combiner, *model, error) {
 			return nil, nil, err
 		}
 		for _, r := range o.rows {
-			m.add(r)
+			m.add(s.kd, r)
 		}
 	}
 	return c, m, nil
